@@ -5,7 +5,8 @@ from .common import *
 EXPLANATION = ("Decides necessary conditions for DPOR to consider both orders of conflicting operations, on the MIR of the current tree: "
                "visibility of every modelled operation as a branch point (V1), results read after the branch (V2), algebraic laws of the "
                "per-object dependence tables extracted from last_dependent_access/set_last_access (T1 symmetry, T2 overwrite soundness, "
-               "T3 required conflicts), wiring of Execution::schedule (T4) and dispatch exhaustiveness (T5). Completeness of the reduction "
+               "T3 required conflicts, T6 recency selection), wiring of Execution::schedule (T4), dispatch exhaustiveness (T5), and how a detected "
+               "race becomes a backtrack point (E1: the racing thread if enabled there, else all threads; B1: walk-back). Completeness of the reduction "
                "itself and which outcomes appear are not decided.")
 RULE_TEXT = ("rule instances = operations (V1/V2), dependence-table cells (T1-T3), wiring events (T4), dispatch arms (T5); "
              "non-trivial when matched to concrete MIR sites")
@@ -14,5 +15,9 @@ LEVEL_NOTE = "necessary conditions only; the DPOR completeness theorem is not de
 
 def run(ctx):
     g_dpor.run_all(ctx, ["V1", "V2", "V3", "T1", "T2", "T3", "T4", "T5", "T6"])
-    from . import g_state
+    from . import g_state, pathrules
     g_state.S9(ctx)
+    # where a race is turned into a backtrack point: the racing thread if it is enabled there, otherwise every thread (the one
+    # that can unblock it is unknown); and the walk back to a point that may still be changed
+    pathrules.E1(ctx)
+    pathrules.B1(ctx)
